@@ -6,6 +6,7 @@ import (
 	"go/token"
 	"go/types"
 	"strings"
+	"verif/checker/internal/load"
 
 	"golang.org/x/tools/go/cfg"
 	"golang.org/x/tools/go/ssa"
@@ -266,4 +267,141 @@ func (c *Ctx) csvStrictness() {
 	if readers == 0 {
 		c.Run.Break("reader/csv-strictness: no encoding/csv.NewReader call found in the module (the rule has nothing to decide; fails closed)")
 	}
+}
+
+// assetEntryReleased (C13, backtest/asset-entry): HTMLReport keeps one entry per begun asset and
+// AssetBegin refuses a name that still has one. On the control-flow graph of HTMLReport.AssetEnd:
+// every exit passes through delete(<the map the entry was looked up in>, name), except the exit
+// inside the branch taken when the lookup found no entry. An exit that leaves the entry behind
+// (e.g. the "no results" exit taken before the delete) makes every later AssetBegin for that name
+// fail, so a later run on the same report delivers no result for the asset.
+func (c *Ctx) assetEntryReleased() {
+	top := c.fn("backtest", "HTMLReport", "AssetEnd")
+	if top == nil || top.Decl.Body == nil {
+		return
+	}
+	if c.assetEntryReleasedIn(top, top) {
+		return
+	}
+	// the lookup-and-release may live in one unexported helper of the package
+	info := top.Pkg.TypesInfo
+	done := false
+	ast.Inspect(top.Decl.Body, func(n ast.Node) bool {
+		call, ok := n.(*ast.CallExpr)
+		if !ok || done {
+			return !done
+		}
+		f := callee(info, call)
+		if f == nil || ast.IsExported(f.Name()) {
+			return true
+		}
+		if h := c.P.Info(f); h != nil && h.Pkg == top.Pkg && h.Decl.Body != nil {
+			done = c.assetEntryReleasedIn(h, top)
+		}
+		return !done
+	})
+	if !done {
+		c.violate("backtest/asset-entry", "backtest.(*HTMLReport).AssetEnd", "no-lookup", top.Decl.Pos(), "AssetEnd no longer looks its asset up in a map field with the two-value form, itself or in an unexported helper (undecided, fails closed)")
+	}
+}
+
+// assetEntryReleasedIn decides the rule on fi's body when the two-value lookup is there.
+func (c *Ctx) assetEntryReleasedIn(fi, top *load.FuncInfo) bool {
+	info := fi.Pkg.TypesInfo
+	// the lookup `v, ok := h.<map>[name]`
+	var okObj types.Object
+	var mapField types.Object
+	ast.Inspect(fi.Decl.Body, func(n ast.Node) bool {
+		as, ok := n.(*ast.AssignStmt)
+		if !ok || len(as.Lhs) != 2 || len(as.Rhs) != 1 || okObj != nil {
+			return true
+		}
+		ix, ok := ast.Unparen(as.Rhs[0]).(*ast.IndexExpr)
+		if !ok {
+			return true
+		}
+		if _, isMap := info.TypeOf(ix.X).Underlying().(*types.Map); !isMap {
+			return true
+		}
+		sel, ok := ast.Unparen(ix.X).(*ast.SelectorExpr)
+		if !ok {
+			return true
+		}
+		if id, ok := as.Lhs[1].(*ast.Ident); ok {
+			okObj = info.ObjectOf(id)
+			mapField = info.ObjectOf(sel.Sel)
+		}
+		return true
+	})
+	if okObj == nil || mapField == nil {
+		return false
+	}
+	isDelete := func(n ast.Node) bool {
+		call, ok := n.(*ast.CallExpr)
+		if !ok || len(call.Args) != 2 {
+			return false
+		}
+		id, ok := call.Fun.(*ast.Ident)
+		if !ok {
+			return false
+		}
+		if b, isB := info.Uses[id].(*types.Builtin); !isB || b.Name() != "delete" {
+			return false
+		}
+		sel, ok := ast.Unparen(call.Args[0]).(*ast.SelectorExpr)
+		return ok && info.ObjectOf(sel.Sel) == mapField
+	}
+	// returns inside `if !ok { … }`
+	notFound := map[*ast.ReturnStmt]bool{}
+	ast.Inspect(fi.Decl.Body, func(n ast.Node) bool {
+		ifs, ok := n.(*ast.IfStmt)
+		if !ok {
+			return true
+		}
+		un, ok := ast.Unparen(ifs.Cond).(*ast.UnaryExpr)
+		if !ok || un.Op != token.NOT {
+			return true
+		}
+		if id, ok := ast.Unparen(un.X).(*ast.Ident); ok && info.ObjectOf(id) == okObj {
+			ast.Inspect(ifs.Body, func(m ast.Node) bool {
+				if r, ok := m.(*ast.ReturnStmt); ok {
+					notFound[r] = true
+				}
+				return true
+			})
+		}
+		return true
+	})
+	// `if ok { … delete … }`: when the entry exists (the only case in which there is one to
+	// release) the branch is taken, so the test itself counts as the release
+	guarded := map[ast.Node]bool{}
+	ast.Inspect(fi.Decl.Body, func(n ast.Node) bool {
+		ifs, ok := n.(*ast.IfStmt)
+		if !ok {
+			return true
+		}
+		if id, ok := ast.Unparen(ifs.Cond).(*ast.Ident); ok && info.ObjectOf(id) == okObj {
+			has := false
+			ast.Inspect(ifs.Body, func(m ast.Node) bool {
+				if m != nil && isDelete(m) {
+					has = true
+				}
+				return !has
+			})
+			if has {
+				guarded[ast.Unparen(ifs.Cond)] = true
+			}
+		}
+		return true
+	})
+	event := func(n ast.Node) bool { return isDelete(n) || guarded[n] }
+	bad := exitsWithout(fi.Decl.Body, nil, event, func(r *ast.ReturnStmt) bool { return notFound[r] })
+	c.Run.Count("asset_end_not_found_exits", len(notFound))
+	c.Run.Oblige(len(bad) == 0)
+	for _, p := range bad {
+		c.violate("backtest/asset-entry", "backtest.(*HTMLReport).AssetEnd", "exit without delete", p,
+			"this exit of AssetEnd leaves the asset's entry in "+mapField.Name()+": AssetBegin refuses a name that still has an entry, so the asset gets no result in any later run on the same report")
+		break
+	}
+	return true
 }
